@@ -19,7 +19,7 @@ Not a Rust parser: comments and `#[cfg(tracing_verif)] …yield_point(n);` hook 
 squashed, and each function body must match the one or two shapes known here.  Everything else is `…Unknown` in the
 generated file plus an entry in the returned `unrecognised` list (fail closed: the pinned theorems then fail).
 
-main(repo, None) -> (text of coq/gen/Gen_dispatch.v, unrecognised list)."""
+main(repo, None) -> (text of coq/gen/Gen_dispatch.v, unrecognised list);  shapes(repo) -> the readings as Python data."""
 import os
 import re
 import sys
@@ -536,14 +536,15 @@ def coq_list(items):
 
 
 def shapes(repo):
-    """All readings as Python data (used by the drivers too): (dispatch dict, guard dict, unrecognised)."""
-    unrec = []
-    d = read_dispatch(repo, unrec)
-    g = read_macros(repo, unrec)
-    g.update(read_lib(repo, unrec))
-    g.update(read_collect(repo, unrec))
-    g.update(read_callsite(repo, unrec))
-    g["static"] = read_static_max(repo, unrec)
+    """All readings as Python data (used by the drivers too):
+    (dispatch dict, guard dict, unrecognised in dispatch.rs's default machinery [C02, C01], unrecognised elsewhere [C01])."""
+    unrec_d, unrec_g = [], []
+    d = read_dispatch(repo, unrec_d)
+    g = read_macros(repo, unrec_g)
+    g.update(read_lib(repo, unrec_g))
+    g.update(read_collect(repo, unrec_g))
+    g.update(read_callsite(repo, unrec_g))
+    g["static"] = read_static_max(repo, unrec_g)
     fx = None
     quad = (d["slow"], d["current"], d["prior"], d["restore"])
     if quad == ("NoneUsesGlobal", "NoneUsesGlobal", "PriorIsOption", "RestoreAlways"):
@@ -551,13 +552,14 @@ def shapes(repo):
     elif quad == ("NoneCachesGlobal", "NoneCachesGlobal", "PriorOrGlobalClone", "RestoreIfSome"):
         fx = False
     else:
-        unrec.append("dispatch.rs: the four thread-local sites are neither all repaired nor all as before the F1 fix: %s" % (quad,))
+        unrec_d.append("dispatch.rs: the four thread-local sites are neither all repaired nor all as before the F1 fix: %s" % (quad,))
     d["fx"] = fx
-    return d, g, unrec
+    return d, g, unrec_d, unrec_g
 
 
 def main(repo, _unused=None):
-    d, g, unrec = shapes(repo)
+    d, g, unrec_d, unrec_g = shapes(repo)
+    unrec = unrec_d + unrec_g
     b = lambda x: "true" if x else "false"  # noqa: E731
     L = ["(** GENERATED by translators/dispatch_shape.py from tracing-core/src/{dispatch,callsite,collect}.rs and",
          "    tracing/src/{lib,macros,level_filters}.rs.  Rewritten on every run; do not edit.  Meaning: Dispatch/Shape.v. *)",
@@ -602,8 +604,10 @@ def main(repo, _unused=None):
          "  g_rebuild := %s;" % g["rebuild"],
          "  g_static_max := %s |}." % coq_list("(\"%s\", %s, %d)" % (f, b(r), l) for f, r, l in g["static"]),
          "",
-         "(* shapes the translator could not recognise on this run (the pinned theorems need this list empty) *)",
-         "Definition gen_dispatch_unrecognised : list string := %s." % coq_list('"%s"' % u.replace('"', "'") for u in unrec),
+         "(* shapes the translator could not recognise on this run (the pinned theorems need these lists empty):",
+         "   dispatch.rs's default machinery (C02, and C01 through get_default), and everything else (C01) *)",
+         "Definition gen_dispatch_unrecognised : list string := %s." % coq_list('"%s"' % u.replace('"', "'") for u in unrec_d),
+         "Definition gen_guard_unrecognised : list string := %s." % coq_list('"%s"' % u.replace('"', "'") for u in unrec_g),
          ""]
     return "\n".join(L), unrec
 
